@@ -417,11 +417,22 @@ class Item:
         for mo in re.finditer(r"\bdebug_assert!\s*\(", self.m):
             close = match_brace(self.m, mo.end() - 1, "(", ")")
             inner = self.text[mo.end():close]
+            # drop the message arguments: cut at the first top-level comma
+            im, par = self.m[mo.end():close], 0
+            for ci, ch in enumerate(im):
+                if ch in "([{":
+                    par += 1
+                elif ch in ")]}":
+                    par -= 1
+                elif ch == "," and par == 0:
+                    inner = inner[:ci]
+                    break
             self.rewrite(mo.start(), close + 1, "assert(%s)" % inner, "R5")
 
     def d_drop(self, text):
         pat = r"\s*".join(re.escape(t) for t in re.findall(r"\w+|[^\w\s]", text))
         hits = list(re.finditer(pat, self.text))
+        hits = [h for h in hits if not any(e[0] <= h.start() and h.end() <= e[1] and e[0] < e[1] for e in self.edits)]
         if not hits:
             raise Undecided("LOST-ANCHOR: drop target `%s` not in %s" % (text, self.where()))
         for h in hits:
@@ -732,6 +743,8 @@ def build_unit(unit_path, repo=REPO):
                 it.d_R4(args[0], args[1], "R4")
             elif name == "R6":
                 it.d_R4(args[0], args[1], "R6")
+            elif name == "R1":
+                it.d_R4(args[0], args[1], "R1")
             elif name == "R5":
                 it.d_R5()
             elif name == "drop":
@@ -805,7 +818,7 @@ def fn_table(generated):
         conts.append((mo.start(), e, hdr))
     for mo in re.finditer(r"\bfn\s+([A-Za-z_][A-Za-z0-9_]*)", m):
         j, par = mo.end(), 0
-        bo = None
+        bo, e = None, None
         while j < len(m):
             ch = m[j]
             if ch in "([":
@@ -813,12 +826,21 @@ def fn_table(generated):
             elif ch in ")]":
                 par -= 1
             elif ch == "{" and par == 0:
-                bo = j
+                # a brace group at top level: either part of a requires/ensures expression or the body
+                close = match_brace(m, j)
+                nxt = re.match(r"\s*(\S{0,3})", m[close + 1:close + 40])
+                tok = nxt.group(1) if nxt else ""
+                cont = tok[:1] in list(",=&|).?+-*/<>:") or re.match(r"(els|dec|ens|req|rec|by\b|via|ope|inv|no_)", tok) is not None
+                if cont:
+                    j = close + 1
+                    continue
+                bo, e = j, close
                 break
             elif ch == ";" and par == 0:
                 break
             j += 1
-        e = match_brace(m, bo) if bo is not None else j
+        if bo is None:
+            e = j
         qual = ""
         for (cs, ce, hdr) in conts:
             if cs < mo.start() < ce:
